@@ -68,3 +68,29 @@ Lemma ex_outcome :
   ex_state 9 KSequence = SSeq [(b "seq1", 102)] /\
   match ex_state 9 KTable with STab T => tab_get T T_USER_B (b "admin") = Some (b "pw-hash") | _ => False end.
 Proof. vm_compute. repeat split. Qed.
+
+(** ** outside [cfg_inv]: a temporary (follower-routed, SetTmpValue) value.  build_snapshot
+    writes it like any other value (empty history); the loaded value is no longer temporary and
+    is listed.  When the committed ConfigAdd with the same content is then replayed, the live
+    node appends its history item (the value was temporary) while the restarted node sees an
+    unchanged md5 and records nothing: the history item is lost.  (Model-level observation: it
+    needs a follower snapshot inside the SetTmpValue window; not reproduced on the real code.) *)
+Definition tmp_key : key := mkKey (b "d") (b "g") [].
+Definition tmp_store : store := set_tmp_config H0 store_new tmp_key (b "v") 5.
+Definition tmp_add : raft_cmd := ConfigAdd (build_key tmp_key) (b "v") None None 1 None 10 None.
+
+Definition reload (s : store) : cstate :=
+  fold_left (cload_routed cstate (n_load H0) KConfig) (n_snap KConfig (SCfg s)) (n_init KConfig).
+
+Lemma tmp_value_snapshot_refuted :
+  (* live: listed = false, temporary; after the commit: one history item *)
+  ti_mem (st_index tmp_store) tmp_key = false /\
+  option_map (fun v => List.length (cv_hist v)) (cache_get (cfg_apply H0 tmp_store tmp_add) tmp_key) = Some 1%nat /\
+  (* restarted from a snapshot taken in the window: listed, not temporary; after the commit: no history *)
+  match reload tmp_store with
+  | SCfg s' => ti_mem (st_index s') tmp_key = true /\
+               option_map cv_tmp (cache_get s' tmp_key) = Some false /\
+               option_map (fun v => List.length (cv_hist v)) (cache_get (cfg_apply H0 s' tmp_add) tmp_key) = Some 0%nat
+  | _ => False
+  end.
+Proof. vm_compute. repeat split. Qed.
